@@ -5,7 +5,7 @@ TECH = "contract-based deductive verification: Verus (Z3) on functions sliced me
 
 PROPERTIES = {
     'C01': dict(
-        units=['u_map'],
+        units=['u_map', 'u_cascade', 'u_dataset'],
         level_text="Deductive proof (Verus/Z3), for all inputs and without bound, that every reverse-index primitive the store is built from (RelationMap, RelationBTreeMap, TripleRelationMap, ExclusiveRelationMap: insert/remove/remove_all/remove_second/get) changes exactly the addressed row and nothing else. The store-level callbacks that call these primitives are not under contract; the claim is partial and says so.",
         level_note="Trusted: Vec::resize_with / Option::copied std specs, vx_position (Iterator::position semantics, structural == on handles), lawful Ord on handle types (obeys_cmp precondition), 64-bit usize. Not decided: StoreCallbacks<Annotation>::{inserted,preremove}, protect_text.",
         design_ref='DESIGN.md §7.1',
@@ -51,6 +51,14 @@ PROPERTIES = {
         design_ref='DESIGN.md §7.6',
         explanation="partition and boundary clauses on the real SegmentationIter::next with the iterator and resource accessors stubbed",
         assumptions=["find_text / find_text_nocase / find_text_regex / split_text / trim_text are not covered by this check"],
+    ),
+    'C02': dict(
+        units=['u_store', 'u_cascade', 'u_map', 'u_dataset'],
+        level_text="Deductive proof (Verus/Z3): the generic StoreFor::remove succeeds whenever the item exists (and its callback succeeds), leaves a tombstone, drops the item's id and only ever turns other slots into tombstones; the index half of StoreCallbacks<Annotation>::preremove (cut out as a region) removes the removed annotation from exactly the rows of exactly the reverse index that its targets and data occupy, leaving every other row untouched; the index primitives used by the cascade (remove / remove_all / remove_second) and the dataset callbacks are exact. The transitive set of dependents that is removed is defined by the un-contracted part of preremove and is NOT decided.",
+        level_note="Trusted: the collection of an annotation's targets through the high-level iterator API at the start of preremove(Annotation) (outside the region), preremove for TextResource / AnnotationDataSet, remove_data/remove_key orchestration, DELETE query routing; HashMap model; vx_position; lawful Ord on handles.",
+        design_ref='DESIGN.md §7.2',
+        explanation="removal = generic tombstone contract + exact un-indexing of the removed annotation",
+        assumptions=["each reverse-index row lists an annotation at most once (stated as a precondition of the un-indexing region)"],
     ),
 }
 
